@@ -74,6 +74,17 @@ impl NodeProcessor for ValueInjection {
                 &self.identifier == identifier.get_name()
                     && !self.is_identifier_used(&self.identifier)
             }
+            // `_G.name` and `_G["name"]` are the same global, as in expression position
+            Prefix::Field(field) => {
+                &self.identifier == field.get_field().get_name()
+                    && !self.is_identifier_used("_G")
+                    && matches!(field.get_prefix(), Prefix::Identifier(prefix) if prefix.get_name() == "_G")
+            }
+            Prefix::Index(index) => {
+                !self.is_identifier_used("_G")
+                    && matches!(index.get_index(), Expression::String(string) if string.get_string_value() == Some(&self.identifier))
+                    && matches!(index.get_prefix(), Prefix::Identifier(prefix) if prefix.get_name() == "_G")
+            }
             _ => false,
         };
 
